@@ -179,6 +179,9 @@ func checkErrorBranch(fn *ssa.Function, t nilTest, eAliases map[ssa.Value]bool, 
 			}
 		}
 	}
+	if leaks && leakReturnsTheError(fn, region, eAliases) {
+		return true, ""
+	}
 	if strict && leaks {
 		return false, "error branch rejoins normal flow (the error is logged or ignored and execution continues)"
 	}
@@ -190,6 +193,49 @@ func checkErrorBranch(fn *ssa.Function, t nilTest, eAliases map[ssa.Value]bool, 
 		return false, "error branch never returns"
 	}
 	return true, ""
+}
+
+// leakReturnsTheError: `if err != nil { log }; return err` — the error branch rejoins the normal flow,
+// but every block it rejoins does nothing except return the very error that was tested (so the
+// function still fails exactly when the call failed).
+func leakReturnsTheError(fn *ssa.Function, region map[*ssa.BasicBlock]bool, eAliases map[ssa.Value]bool) bool {
+	for x := range region {
+		for _, s := range x.Succs {
+			if region[s] {
+				continue
+			}
+			var ret *ssa.Return
+			for _, in := range s.Instrs {
+				switch y := in.(type) {
+				case *ssa.Return:
+					ret = y
+				case *ssa.Call, *ssa.Store, *ssa.MapUpdate, *ssa.Send, *ssa.Go, *ssa.Defer, *ssa.If, *ssa.Jump, *ssa.RunDefers:
+					if _, isRD := in.(*ssa.RunDefers); isRD {
+						continue
+					}
+					return false
+				}
+			}
+			if ret == nil || len(ret.Results) == 0 {
+				return false
+			}
+			last := ret.Results[len(ret.Results)-1]
+			if !isErrorType(last.Type()) {
+				return false
+			}
+			all, any := true, false
+			valueOrigins(fn, last, func(root ssa.Value) {
+				any = true
+				if !eAliases[root] {
+					all = false
+				}
+			})
+			if !all || !any {
+				return false
+			}
+		}
+	}
+	return true
 }
 
 func provablyNonNilErrorOrAlias(fn *ssa.Function, v ssa.Value, eAliases map[ssa.Value]bool) (bool, string) {
